@@ -2,7 +2,7 @@
    LEX_MAX_ERROR entries plus one notice, get_logs_str cuts at SAKURA_MAX_LOGS_CHARS characters plus "...";
    the text of the entries written by lex_error and read_error_cmd. *)
 From Coq Require Import String Ascii.
-From Sakura.Model Require Import Base Cursor Length Event Song Token LexCore RunCore Compile.
+From Sakura.Model Require Import Base Cursor Length Event Song Token LexCore RunCore Compile Msg.
 From Sakura.Gen Require Import Consts Messages.
 From Sakura.Proofs Require Import LayoutP.
 From Coq Require Import Lia.
@@ -60,16 +60,16 @@ Lemma song_with_ls_logs s ls : s_logs (song_with_ls s ls) = lx_logs ls.
 Proof. reflexivity. Qed.
 
 (* ---- lex_error: at most LEX_MAX_ERROR entries, then one notice, then nothing ---- *)
-Definition unknown_char_entry (ln : Z) (msg near : list Z) : list Z :=
-  zs "[ERROR](" ++ show_int ln ++ zs ") " ++ msg_en_UnknownChar ++ zs ": """ ++ msg ++ zs """ "
-  ++ msg_en_Near ++ zs " """ ++ near ++ zs """".
-Definition too_many_entry (ln : Z) : list Z :=
-  zs "[ERROR](" ++ show_int ln ++ zs ") " ++ msg_en_TooManyErrorsInLexer.
+Definition unknown_char_entry (ja : bool) (ln : Z) (msg near : list Z) : list Z :=
+  zs "[ERROR](" ++ show_int ln ++ zs ") " ++ msg_UnknownChar ja ++ zs ": """ ++ msg ++ zs """ "
+  ++ msg_Near ja ++ zs " """ ++ near ++ zs """".
+Definition too_many_entry (ja : bool) (ln : Z) : list Z :=
+  zs "[ERROR](" ++ show_int ln ++ zs ") " ++ msg_TooManyErrorsInLexer ja.
 
 Lemma lex_error_cases ls s ln msg :
   lx_logs (lex_error ls s ln msg) =
-    if zlen (lx_logs ls) <? LEX_MAX_ERROR then lx_logs ls ++ [unknown_char_entry ln msg (near_text s)]
-    else if zlen (lx_logs ls) =? LEX_MAX_ERROR then lx_logs ls ++ [too_many_entry ln]
+    if zlen (lx_logs ls) <? LEX_MAX_ERROR then lx_logs ls ++ [unknown_char_entry (lx_ja ls) ln msg (near_text s)]
+    else if zlen (lx_logs ls) =? LEX_MAX_ERROR then lx_logs ls ++ [too_many_entry (lx_ja ls) ln]
     else lx_logs ls.
 Proof.
   pose proof consts_sane as [C0 [C1 C2]].
@@ -88,7 +88,7 @@ Proof.
 Qed.
 (* fewer than LEX_MAX_ERROR entries so far: exactly one entry, of the documented form *)
 Lemma lex_error_entry ls s ln msg : zlen (lx_logs ls) < LEX_MAX_ERROR ->
-  lx_logs (lex_error ls s ln msg) = lx_logs ls ++ [unknown_char_entry ln msg (near_text s)].
+  lx_logs (lex_error ls s ln msg) = lx_logs ls ++ [unknown_char_entry (lx_ja ls) ln msg (near_text s)].
 Proof. intros H. rewrite lex_error_cases. replace (zlen (lx_logs ls) <? LEX_MAX_ERROR) with true by lia. reflexivity. Qed.
 (* more than LEX_MAX_ERROR entries: nothing is added *)
 Lemma lex_error_full ls s ln msg : LEX_MAX_ERROR < zlen (lx_logs ls) -> lex_error ls s ln msg = ls.
@@ -120,11 +120,11 @@ Proof.
 Qed.
 
 (* ---- read_error_cmd ---- *)
-Definition syntax_error_entry (ln : Z) (cmd near : list Z) : list Z :=
-  zs "[ERROR](" ++ show_int ln ++ zs ") " ++ msg_en_ScriptSyntaxError ++ zs " """ ++ cmd ++ zs """ "
-  ++ msg_en_Near ++ zs " """ ++ near ++ zs """".
+Definition syntax_error_entry (ja : bool) (ln : Z) (cmd near : list Z) : list Z :=
+  zs "[ERROR](" ++ show_int ln ++ zs ") " ++ msg_ScriptSyntaxError ja ++ zs " """ ++ cmd ++ zs """ "
+  ++ msg_Near ja ++ zs " """ ++ near ++ zs """".
 Lemma read_error_cmd_entry ls s ln cmd : zlen (lx_logs ls) < SAKURA_MAX_LOGS ->
-  lx_logs (read_error_cmd ls s ln cmd) = lx_logs ls ++ [syntax_error_entry ln cmd (near_text_raw s)].
+  lx_logs (read_error_cmd ls s ln cmd) = lx_logs ls ++ [syntax_error_entry (lx_ja ls) ln cmd (near_text_raw s)].
 Proof.
   intros H. unfold read_error_cmd. rewrite lx_add_log_logs.
   replace (SAKURA_MAX_LOGS <=? zlen (lx_logs ls)) with false by lia. reflexivity.
@@ -141,7 +141,7 @@ Proof.
 Qed.
 Lemma compile_log_bound src bytes log : compile src = Ok (bytes, log) -> zlen log <= SAKURA_MAX_LOGS_CHARS + 3.
 Proof.
-  unfold compile. destruct (run_source src) as [s| | |]; cbn [bind]; try discriminate.
+  unfold compile, compile_lang. fold (run_source src). destruct (run_source src) as [s| | |]; cbn [bind]; try discriminate.
   match goal with |- bind ?g _ = _ -> _ => destruct g end; cbn [bind]; try discriminate.
   intros H. injection H as _ <-. apply logs_str_bound.
 Qed.
@@ -149,11 +149,11 @@ Qed.
 Lemma lex_error_spec ls s ln m :
   (zlen (lx_logs ls) < LEX_MAX_ERROR ->
      lx_logs (lex_error ls s ln m)
-     = lx_logs ls ++ [zs "[ERROR](" ++ show_int ln ++ zs ") " ++ msg_en_UnknownChar ++ zs ": """ ++ m ++ zs """ "
-                      ++ msg_en_Near ++ zs " """ ++ near_text s ++ zs """"]) /\
+     = lx_logs ls ++ [zs "[ERROR](" ++ show_int ln ++ zs ") " ++ msg_UnknownChar (lx_ja ls) ++ zs ": """ ++ m ++ zs """ "
+                      ++ msg_Near (lx_ja ls) ++ zs " """ ++ near_text s ++ zs """"]) /\
   (zlen (lx_logs ls) = LEX_MAX_ERROR ->
      lx_logs (lex_error ls s ln m)
-     = lx_logs ls ++ [zs "[ERROR](" ++ show_int ln ++ zs ") " ++ msg_en_TooManyErrorsInLexer]) /\
+     = lx_logs ls ++ [zs "[ERROR](" ++ show_int ln ++ zs ") " ++ msg_TooManyErrorsInLexer (lx_ja ls)]) /\
   (LEX_MAX_ERROR < zlen (lx_logs ls) -> lex_error ls s ln m = ls) /\
   (zlen (lx_logs ls) <= LEX_MAX_ERROR + 1 -> zlen (lx_logs (lex_error ls s ln m)) <= LEX_MAX_ERROR + 1) /\
   lx_timebase (lex_error ls s ln m) = lx_timebase ls /\ lx_vars (lex_error ls s ln m) = lx_vars ls /\
